@@ -2,6 +2,7 @@ package props
 
 import (
 	"encoding/binary"
+	"encoding/json"
 	"fmt"
 	"math"
 	"os"
@@ -33,6 +34,29 @@ type callCase struct {
 	// passphrase = PassUnit repeated PassTimes
 	PassUnit  text `json:"pass_unit,omitempty"`
 	PassTimes int  `json:"pass_times,omitempty"`
+	// SourceFails, for NewMnemonic: a randomness source installed through the hook for this call
+	// that delivers SourceAfter bytes and from then on fails with this error kind on every Read
+	// (a source that never recovers: the call must still return)
+	SourceFails string `json:"source_fails,omitempty"`
+	SourceAfter int    `json:"source_after,omitempty"`
+}
+
+// brokenSource delivers left bytes, then fails on every call.
+type brokenSource struct {
+	left int
+	err  error
+}
+
+func (b *brokenSource) Read(p []byte) (int, error) {
+	if b.left <= 0 {
+		return 0, b.err
+	}
+	k := min(len(p), b.left)
+	for i := 0; i < k; i++ {
+		p[i] = byte(0x41 + i)
+	}
+	b.left -= k
+	return k, nil
 }
 
 func (c *callCase) arg() string  { return strings.Repeat(string(c.Unit), c.Times) + string(c.Tail) }
@@ -87,6 +111,12 @@ var c14Check = register("C14", "c14.call", func(c *callCase) error {
 	var p error
 	switch c.Fn {
 	case "NewMnemonic":
+		if c.SourceFails != "" {
+			prev := bip39.VerifSwapRandSource(&brokenSource{left: c.SourceAfter, err: eventErr(c.SourceFails)})
+			_, _, p = implNew(int(c.N), lang)
+			bip39.VerifSwapRandSource(prev)
+			break
+		}
 		_, _, p = implNew(int(c.N), lang)
 	case "NewMnemonicByEntropy":
 		var e []byte
@@ -115,7 +145,7 @@ var c14Check = register("C14", "c14.call", func(c *callCase) error {
 	return nil
 })
 
-const c14Rule = "C14: every exported entry point x {arbitrary byte strings incl. invalid UTF-8 and NUL, Unicode strings, empty, 1 MiB runs of combining marks, 4 MiB inputs} x Language in {every value in [-300,300], integer-width boundaries, rapid Int64} x entropy {nil, every length 0..4096} x word count {boundaries, rapid Int}; thorough adds two coverage-guided native fuzz targets. Oracle: the call returns (panics are recovered and reported); a call that has not returned after 120 s is a hang. Non-trivial: an unsupported language, invalid UTF-8, a rejected size, or an input > 64 KiB; distinct by the whole call"
+const c14Rule = "C14: every exported entry point x {arbitrary byte strings incl. invalid UTF-8 and NUL, Unicode strings, empty, 1 MiB runs of combining marks, 4 MiB inputs} x Language in {every value in [-300,300], integer-width boundaries, rapid Int64} x entropy {nil, every length 0..4096} x word count {boundaries, rapid Int}; NewMnemonic under sources that fail for good after k bytes with each of 18 error kinds; thorough adds two coverage-guided native fuzz targets. Oracle: the call returns (panics are recovered and reported); a call that has not returned after 120 s is a hang. Non-trivial: an unsupported language, invalid UTF-8, a rejected size, or an input > 64 KiB; distinct by the whole call"
 
 var c14Fns = []string{"NewMnemonic", "NewMnemonicByEntropy", "CheckMnemonic", "IsMnemonicValid", "MnemonicToSeed", "String"}
 
@@ -203,6 +233,14 @@ func TestC14_Grid(t *testing.T) {
 		for _, m := range []int64{1, -1, 2} {
 			for _, v := range []int64{12, 15, 18, 21, 24} {
 				run(&callCase{Fn: "NewMnemonic", Lang: int64(bip39.English), N: v + m<<k})
+			}
+		}
+	}
+	// a randomness source that fails for good after k bytes, every error kind: the call must return
+	for ki, kind := range append([]string{"EOF", "UnexpectedEOF", "custom", "EAGAIN", "timeout"}, osErrKinds...) {
+		for _, n := range []int64{12, 24, 18} {
+			for _, after := range []int{0, 1, int(n)/3*4 - 1} {
+				run(&callCase{Fn: "NewMnemonic", Lang: int64(implLang[ref.Lang((ki+after)%int(ref.NumLangs))]), N: n, SourceFails: kind, SourceAfter: after})
 			}
 		}
 	}
@@ -304,7 +342,7 @@ func TestC14_Random(t *testing.T) {
 		if k++; k%499 == 1 {
 			cov.Sample("c14.call", c)
 		}
-		judge(rt, "c14.call", c14Check, c)
+		judgeH(rt, "c14.call", c14Check, c, gen.Lang().Draw(rt, "history-around"))
 	})
 }
 
@@ -347,5 +385,107 @@ func FuzzC14(f *testing.F) {
 		c.Tail = text(data)
 		c14Record(c)
 		judge(t, "c14.call", c14Check, c)
+	})
+}
+
+// c14.concurrent: "never panics" includes the failures recover() cannot stop (fatal error:
+// concurrent map read and map write, all goroutines asleep). Goroutines of a freshly started
+// child process call the entry points at once with arguments that take the rare paths: words in
+// capitals or with a capital first letter, near-miss words, tokens of other languages, wrong
+// sizes, unsupported languages. The child must finish, and no call may panic.
+type concCallCase struct {
+	Plan plan `json:"plan"`
+}
+
+var c14ConcCheck = register("C14", "c14.concurrent", func(c *concCallCase) error {
+	r := spawnChild(&c.Plan, false)
+	if r.Exit == -2 {
+		return failf("C14 hang concurrent", "a fresh process whose goroutines call the API at once did not finish within 120 s: %s", describeChildFailure(r))
+	}
+	if r.Report == nil {
+		if r.Crashed {
+			return failf("C14 crash concurrent", "a fresh process whose goroutines call the API at once died: %s", describeChildFailure(r))
+		}
+		harnessError("c14.concurrent: child failed without a Go crash: %s", describeChildFailure(r))
+	}
+	for pi := range r.Report.Results {
+		for gi := range r.Report.Results[pi] {
+			for oi, o := range r.Report.Results[pi][gi] {
+				if o.Panic != "" {
+					return failf("C14 panic concurrent "+c.Plan.Phases[pi].Goroutines[gi][oi].Kind, "%s panicked while other goroutines were calling the API: %s", opString(&c.Plan.Phases[pi].Goroutines[gi][oi]), o.Panic)
+				}
+			}
+		}
+	}
+	return nil
+})
+
+// caseVariant respells the words of a sentence the way keyboards and paper backups do.
+func caseVariant(rt *rapid.T, words []string) string {
+	w := append([]string(nil), words...)
+	mode := rapid.IntRange(0, 4).Draw(rt, "case-mode")
+	for i := range w {
+		r := []rune(w[i])
+		switch {
+		case mode == 0 && i == 0, mode == 1, mode == 4 && rapid.Bool().Draw(rt, "this-word"):
+			w[i] = strings.ToUpper(string(r[:1])) + string(r[1:])
+		case mode == 2:
+			w[i] = strings.ToUpper(w[i])
+		case mode == 3 && rapid.IntRange(0, 2).Draw(rt, "damage") == 0:
+			w[i] = rapid.SampledFrom([]string{w[i] + "s", string(r[:len(r)-1]), strings.ToTitle(w[i]), w[i] + "\u0301", " " + w[i]}).Draw(rt, "near-miss")
+		}
+	}
+	return strings.Join(w, " ")
+}
+
+func TestC14_Concurrent(t *testing.T) {
+	cov.Rule(c14Rule + " || concurrent variant: fresh child processes in which 4..12 goroutines call all entry points at once with capitalised / near-miss / foreign words, wrong sizes and unsupported languages; the process must finish (no fatal error, no deadlock, no hang) and no call may panic")
+	k := 0
+	rapidCheck(t, func(rt *rapid.T) {
+		l := gen.Lang().Draw(rt, "lang")
+		if rapid.Bool().Draw(rt, "cased-script") {
+			l = rapid.SampledFrom([]ref.Lang{ref.English, ref.French, ref.Spanish, ref.Italian, ref.Czech, ref.Portuguese}).Draw(rt, "cased-lang")
+		}
+		il := int64(implLang[l])
+		ng := rapid.IntRange(4, 12).Draw(rt, "goroutines")
+		gs := make([][]op, ng)
+		for g := range gs {
+			nops := rapid.IntRange(4, 24).Draw(rt, "ops")
+			for i := 0; i < nops; i++ {
+				words := ref.Words(l, gen.ValidIndices().Draw(rt, "sentence"))
+				var o op
+				switch rapid.IntRange(0, 9).Draw(rt, "kind") {
+				case 0, 1, 2, 3:
+					o = op{Kind: "check", Lang: il, Text: text(caseVariant(rt, words))}
+				case 4:
+					o = op{Kind: "valid", Lang: il, Text: text(caseVariant(rt, words))}
+				case 5:
+					o = op{Kind: "check", Lang: il, Text: text(strings.Join(words, l.Sep()))}
+				case 6:
+					m := gen.Defect().Draw(rt, "defect")
+					if len(m.Text) > 2048 {
+						m.Text = m.Text[:2048]
+					}
+					o = op{Kind: "check", Lang: rapid.SampledFrom([]int64{il, int64(implLang[m.Lang]), -1, 10}).Draw(rt, "check-lang"), Text: text(strings.ToValidUTF8(m.Text, "?"))}
+				case 7:
+					o = op{Kind: "encode", Lang: rapid.SampledFrom([]int64{il, il, 10, -1}).Draw(rt, "enc-lang"), Entropy: rapid.SliceOfN(rapid.Byte(), 0, 40).Draw(rt, "entropy"), ExtraCap: rapid.SampledFrom([]int{0, 8}).Draw(rt, "cap")}
+				case 8:
+					o = op{Kind: "new", Lang: il, N: int64(rapid.SampledFrom([]int{12, 24, 15, 0, 13, -3}).Draw(rt, "n"))}
+				default:
+					o = op{Kind: "string", Lang: rapid.SampledFrom([]int64{il, -1, 10, 1 << 20}).Draw(rt, "string-lang")}
+				}
+				gs[g] = append(gs[g], o)
+			}
+		}
+		c := &concCallCase{Plan: plan{GOMAXPROCS: rapid.SampledFrom([]int{0, 0, 2, 4, 16}).Draw(rt, "gomaxprocs"), Phases: []phase{{Goroutines: gs}}}}
+		cov.Eval(1)
+		cov.Class("concurrent-child")
+		cov.ClassN("goroutines", ng)
+		b, _ := json.Marshal(c)
+		cov.NonTrivial("c14.concurrent", b)
+		if k++; k%23 == 1 && ng <= 5 {
+			cov.Sample("c14.concurrent", c)
+		}
+		judge(rt, "c14.concurrent", c14ConcCheck, c)
 	})
 }
